@@ -9,7 +9,7 @@ Extraction "model.ml"
   (* Codec *) enc size dec has_type ty_ok guards_fixed guards_pinned utf8_valid
   (* Db *) db_new exec transaction elements out_edges in_edges node_count edge_from edge_to
            imap_key kvs_get dbv_eqb dbv_cmp edge_count_from edge_count_to
-  (* FileWal *) trace crash recover walrev_fixed walrev_pinned well_positioned
+  (* FileWal *) trace crash recover recover_g recovery_calls walrev_fixed walrev_pinned well_positioned
   (* Raft *) Raft.init_default Raft.step Raft.run Raft.election_safety_b Raft.committed_agree_b
              Raft.leader_completeness_b Raft.double_vote_b Raft.stale_vote_b Raft.ack_diverged_b
              Raft.old_term_commit_b Raft.ack_below_vote_b Raft.all_synced_b Raft.drain
